@@ -593,6 +593,10 @@ pub struct Context<L: ListenerHandler + L7ListenerHandler> {
     pub session_address: Option<SocketAddr>,
     pub public_address: SocketAddr,
     pub debug: DebugHistory,
+    /// Bytes read from any socket of this session so far (wrapping). `Mux::ready`
+    /// uses it to tell a loop that is busy with a long run of small frames from a
+    /// loop that spins without doing anything.
+    pub read_progress: usize,
     /// Shrink threshold ratio for recycled stream slots.
     /// Vec is shrunk when total_slots > active_streams * ratio.
     pub h2_stream_shrink_ratio: usize,
@@ -675,6 +679,7 @@ impl<L: ListenerHandler + L7ListenerHandler> Context<L> {
             session_address,
             public_address,
             debug: DebugHistory::new(),
+            read_progress: 0,
             h2_stream_shrink_ratio,
             tls_server_name: None,
             tls_cert_names: None,
@@ -961,6 +966,8 @@ impl<Front: SocketHandler + std::fmt::Debug, L: ListenerHandler + L7ListenerHand
         _metrics: &mut SessionMetrics,
     ) -> SessionResult {
         let mut counter = 0;
+        let mut total_iterations: usize = 0;
+        let mut last_read_progress = self.context.read_progress;
 
         // A frontend that hung up with a socket error (connection reset) cannot
         // be flushed to: never delay that close. Delaying it parked the session
@@ -1376,6 +1383,17 @@ impl<Front: SocketHandler + std::fmt::Debug, L: ListenerHandler + L7ListenerHand
                     break;
                 }
 
+                // The iteration budget is there to stop a loop that spins without
+                // doing anything. A long run of small frames (thousands of tiny DATA
+                // frames already in the socket buffer) is real work: every iteration
+                // that read bytes starts a fresh budget, up to a hard ceiling.
+                total_iterations += 1;
+                if self.context.read_progress != last_read_progress
+                    && total_iterations < MAX_LOOP_ITERATIONS as usize * 100
+                {
+                    last_read_progress = self.context.read_progress;
+                    counter = 0;
+                }
                 counter += 1;
                 if counter >= MAX_LOOP_ITERATIONS {
                     incr!(names::http::INFINITE_LOOP_ERROR);
